@@ -47,7 +47,9 @@ def cases(tier, seed):
                                boxes=("mixed", "boxed", "boxed", "lower", "upper", "none"), starts=("interior", "face", "vertex"))
         if ps["family"] == "edge_walk":
             ps["n"] = int(rng.integers(1, 4))
-        yield {"problem": ps, "maxcor": int(rng.integers(1, 8)), "K": int(rng.integers(4, 13)),
+        elif i % 12 == 4:
+            ps["n"] = int(rng.integers(20, 41))  # scale: dimensions and memories larger than the bulk of the cases
+        yield {"problem": ps, "maxcor": int(rng.integers(1, 8)) if ps["n"] < 20 else int(rng.integers(11, 21)), "K": int(rng.integers(4, 13)),
                "maxls": int(gen.pick(rng, ([20] if ps["family"] == "edge_walk" else [1, 2, 3, 3]) if hard else [5, 20, 20])),
                "eps_SY": float(gen.pick(rng, [2.2e-16, 1e-3, 1e-2, 0.1])) if hard else 2.2e-16,
                "long_chain": bool(rng.random() < 0.25), "eps": float(gen.pick(rng, [1e-8, 1e-8, 1e-3, 1e-1])),
